@@ -70,4 +70,125 @@ def prefix(sc):
 
 def canon_rnd(a):
     """a process killed by unbounded recursion / a run that exhausts the model's budget are the same observation"""
-    return "diverge" if a in ("CRASH", "TIMEOUT", "diverge") else a
+    return "diverge" if a in ("CRASH", "TIMEOUT", "diverge") or a.startswith("big ") else a
+
+
+# ------------------------------------------------------------------ C43: accessor cases
+def has_accessor(f):
+    m = f.get("mask")
+    if m:
+        return m["k"] != "num"
+    return f.get("tl2bit") is not None
+
+
+def nat_spec(top, fk, f):
+    """how the external mask of field f (of the struct stored in top's field fk) is passed; '-' for local masks / none"""
+    m = f.get("mask")
+    if not m or m["k"] != "param" or fk is None:
+        return "-"
+    if m["v"] >= len(fk["natArgs"]):
+        return None
+    a = fk["natArgs"][m["v"]]
+    if a["k"] == "field":
+        return "f%d:%s" % (a["v"], top["fields"][a["v"]]["x"]["go"])
+    if a["k"] == "num":
+        return "n%d" % a["v"]
+    return None
+
+
+def acc_targets(sc, top):
+    """[(path token, target struct instance, field of top holding it or None)]"""
+    res = [("-", top, None)]
+    I = sc.desc["instances"]
+    for k, fk in enumerate(top.get("fields") or []):
+        t = I[fk["ty"]]
+        if fk.get("mask") or t["kind"] != "struct" or t.get("isUnwrap") or t.get("isAlias") or t.get("isTypedef") or fk["x"].get("rec"):
+            continue
+        if not fk["x"]["go"]:
+            continue
+        res.append(("%d:%s" % (k, fk["x"]["go"]), t, fk))
+    return res
+
+
+def acc_lines(sc, rng, per):
+    from checks import codec_common as cc
+    from vlib.core import hx
+    g = cc.Gen1(sc, rng.fork())
+    lines = []
+    for top, it in sc.items:
+        if top["kind"] != "struct" or top.get("isUnwrap") or top.get("isAlias") or top.get("isTypedef") or top.get("originTL2"):
+            continue
+        for path, tgt, fk in acc_targets(sc, top):
+            fs = tgt.get("fields") or []
+            accs = [(i, f) for i, f in enumerate(fs) if has_accessor(f) and f["x"]["go"]]
+            specs = {i: nat_spec(top, fk, f) for i, f in accs}
+            accs = [(i, f) for i, f in accs if specs[i] is not None]
+            if not accs:
+                continue
+            report = ",".join("%d:%s:%s" % (i, f["x"]["go"], specs[i]) for i, f in accs)
+            for i, f in accs:
+                ops = []
+                if f.get("isBit"):
+                    ops = [("set", "0"), ("set", "1")] * max(1, per // 2)
+                else:
+                    ops = [("set", "-")] * per + [("clear", "-")] * max(1, per // 2)
+                for op, arg in ops:
+                    a = g.value(top["idx"], False, [], 0)
+                    b = g.value(top["idx"], False, [], 0) if (op == "set" and arg == "-") else b""
+                    lines.append("codec.acc %s %d %s %s %s %s %d:%s %s %s %s %s" % (
+                        sc.sid, top["idx"], top["tlname"], hx(a), hx(b), path, i, f["x"]["go"], op, arg, specs[i], report))
+    return lines
+
+
+def acc_guards(sc, l):
+    """static side conditions under which an accessor call must leave IsSet / TL1 / TL2 / JSON presence consistent
+    (exactly the hypotheses of Props/C43 `set_preserves_consistent_partial`, plus the harness-level ones):
+    returns (shared: bool, sized: bool)."""
+    f = l.split(" ")
+    I = sc.desc["instances"]
+    top = I[int(f[2])]
+    i = int(f[7].split(":")[0])
+    if f[6] == "-":
+        tgt, fk = top, None
+    else:
+        fk = top["fields"][int(f[6].split(":")[0])]
+        tgt = I[fk["ty"]]
+    fs = tgt["fields"]
+    fi = fs[i]
+    m = fi.get("mask")
+    shared = False
+    if m:
+        # another field conditional on the same bit of the same mask
+        shared |= any(k != i and g.get("mask") and g["mask"] == m and g["bit"] == fi["bit"] for k, g in enumerate(fs))
+        # the mask is itself a conditional field (setters do not propagate to ancestors)
+        if m["k"] == "field" and fs[m["v"]].get("mask"):
+            shared = True
+        if m["k"] == "param":
+            a = fk["natArgs"][m["v"]]
+            if a["k"] != "field":
+                shared = True          # constant argument: the pointer handed to the setter is a temporary
+            else:
+                # the `#` field of the parent backing the mask reaches other fields too (as mask or nat argument)
+                j = a["v"]
+                for k, g in enumerate(top["fields"]):
+                    if g is fk:
+                        uses = sum(1 for x in g["natArgs"] if x["k"] == "field" and x["v"] == j)
+                        shared |= uses > 1
+                    else:
+                        shared |= any(x["k"] == "field" and x["v"] == j for x in g["natArgs"])
+                        shared |= bool(g.get("mask")) and g["mask"]["k"] == "field" and g["mask"]["v"] == j
+                if top["fields"][j].get("mask"):
+                    shared = True
+    # the field is itself a mask / nat argument of other fields
+    for k, g in enumerate(fs):
+        if k != i:
+            if g.get("mask") and g["mask"]["k"] == "field" and g["mask"]["v"] == i:
+                shared = True
+            if any(x["k"] == "field" and x["v"] == i for x in g["natArgs"]):
+                shared = True
+    sized = any(x["k"] != "num" for x in fi["natArgs"])
+    return shared, sized
+
+
+def canon_acc(a):
+    return a.split(" | ")[0]
